@@ -266,6 +266,22 @@ CHECKS['C19'] = dict(category='proof', design_ref='DESIGN.md §7 C19',
           "added / transferred / filled (relative to the current state for recipe steps), in a unit of the right base, "
           "rounded to the display precision configured for that unit."))
 
+FLOAT_TARGETS = (" What A1/A2 hide (WHERE the library rounds, float noise at feasibility boundaries) is covered only by the "
+                 "bounded stand-in `bounded[float-targets]` (a native sweep of the real package comparing achieved with "
+                 "requested amounts at relative 1e-9, plate scale included); it is labelled bounded and not counted in "
+                 "`discharged`.")
+for _pid in ('C01', 'C02', 'C05', 'C10', 'C11', 'C12', 'C14'):
+    CHECKS[_pid]['note'] += FLOAT_TARGETS
+CHECKS['C07']['note'] += (" Instruction text of wells is opaque but carries a provenance (whose text it was derived from, "
+                          "propagated through splitlines/replace/join); obligation `instructions-home`: every well's final "
+                          "text derives from its own.")
+CHECKS['C19']['note'] += (" Plate operations: obligation `plate.transfer/instructions-home` (text provenance) on the same "
+                          "plate cases as C07 — no well's instructions are replaced by another container's text.")
+THOROUGH = (" Thorough tier additionally: Lean re-check of the Sigma lemmas (where assumed), the engine-vs-CPython "
+            "differential over pyvc/diff_corpus.py, and the larger case tables / bounds stated in the evidence.")
+for _c in CHECKS.values():
+    _c['note'] += THOROUGH
+
 NOT_YET = "check not built yet in this round (under construction; not claimed)"
 NOT_APPLICABLE = {}
 
